@@ -49,7 +49,8 @@ theorem editInsert_spec (S : Segmenter) (U : UData) (cfg : EdCfg) (ch : Char) (n
       (fun _ s' => ∃ r l ns, LB.insert S U ch n s.line = .ok (r, l, ns) ∧
         s'.core = ({ s with line := l, changes := s.changes.onNotifs S U.alnum ns } : Ed).core)
       (fun o s' => o = .panic ∧
-        ((s' = s ∧ ∃ e, LB.insert S U ch n s.line = .error e) ∨ cfg.hinterPanicAt ≠ none)) s := by
+        ((s' = s ∧ ∃ e, LB.insert S U ch n s.line = .error e) ∨
+         (cfg.hasHelper = true ∧ cfg.hinterPanicAt ≠ none))) s := by
   unfold editInsert
   rw [wp_bind]
   cases h : LB.insert S U ch n s.line with
@@ -61,13 +62,26 @@ theorem editInsert_spec (S : Segmenter) (U : UData) (cfg : EdCfg) (ch : Char) (n
     | none => exact ⟨_, _, _, rfl, rfl⟩
     | some push =>
       simp only [wp_bind, wp_get]
-      refine wp_updateHint cfg (fun s1 hc1 => ?_) (fun _ _ hne => ⟨rfl, .inr hne⟩)
-      simp only [wp_modify]
-      obtain ⟨b, s2, h2⟩ := highlightCharStep_returns cfg
-        { s1 with layoutPromptCol := promptColOf S U cfg cfg.prompt }
-      have hk := (keeps_highlightCharStep cfg).ok h2
-      refine wp_of_eq_ok h2 ?_
-      exact ⟨_, _, _, rfl, hk.trans hc1⟩
+      refine wp_updateHint' cfg (fun s1 hc1 => ?_) (fun _ _ hh hne => ⟨rfl, .inr ⟨hh, hne⟩⟩)
+      cases push with
+      | false =>
+        simp only [Bool.false_eq_true, if_false, wp_bind]
+        refine wp_highlightCharStep cfg fun b s2 hc2 => ?_
+        simp only [wp_setRefreshLayout, wp_logRender]
+        exact ⟨_, _, _, rfl, hc2.trans hc1⟩
+      | true =>
+        simp only [if_true, wp_bind, wp_get, wp_ite]
+        split
+        · refine wp_highlightCharStep cfg fun b s2 hc2 => ?_
+          cases b with
+          | true =>
+            simp only [if_true, wp_bind, wp_setRefreshLayout, wp_logRender]
+            exact ⟨_, _, _, rfl, hc2.trans hc1⟩
+          | false =>
+            simp only [Bool.false_eq_true, if_false, wp_bind, wp_modify, wp_logRender]
+            exact ⟨_, _, _, rfl, hc2.trans hc1⟩
+        · simp only [wp_bind, wp_setRefreshLayout, wp_logRender]
+          exact ⟨_, _, _, rfl, hc1⟩
 
 /-- the same for helpers that do not panic -/
 theorem editInsert_spec_np (S : Segmenter) (U : UData) (cfg : EdCfg) (hnp : cfg.hinterPanicAt = none)
@@ -79,7 +93,7 @@ theorem editInsert_spec_np (S : Segmenter) (U : UData) (cfg : EdCfg) (hnp : cfg.
   wp_mono (editInsert_spec S U cfg ch n s) (fun _ _ h => h) fun o s' ⟨ho, hd⟩ => by
     rcases hd with h | hne
     · exact ⟨ho, h⟩
-    · exact absurd hnp hne
+    · exact absurd hnp hne.2
 
 /-- the verdict `validate` works with: the validator's, or Valid when no helper is installed -/
 def verdictOf (cfg : EdCfg) (t : Text) : Verdict := if cfg.hasHelper = true then cfg.validator t else .valid false
@@ -137,7 +151,7 @@ theorem execAccept_spec (S : Segmenter) (U : UData) (cfg : EdCfg) (aim : Bool) (
         rcases hd with ⟨hs, e, he⟩ | hne
         · subst hs
           exact .inl ⟨h1, .inr (.inr ⟨ho, hv ▸ h6, trivial, e, h1 ▸ he⟩)⟩
-        · exact .inr ⟨ho, hne, hv ▸ h6, trivial⟩
+        · exact .inr ⟨ho, hne.2, hv ▸ h6, trivial⟩
   · intro o s1 ⟨hh, h1, h2⟩
     refine .inl ⟨h1, ?_⟩
     rcases h2 with ⟨ho, hv⟩ | ⟨ho, hv⟩
